@@ -386,7 +386,7 @@ def run(ctx, res):
     cb, pb, errs = common.run_shards('C16', ['Model.Outcome', 'Model.Suite', 'Spec.C16'], 'check_c16', terms, shard_size=60)
     res.errors += errs
     for i in pb:
-        res.prop_failures.append(Failure('property', meta[i], 'suite run violates C16 (invalid suite with processed cases, wrong final '
+        res.prop_failures.append(Failure('property', meta[i], 'suite run violates C16 (cases not processed in the declarative order — sub-suites first, listing order, glob matches sorted by path —, invalid suite with processed cases, wrong final '
                                                               'verdict / exit code, or JUnit counters / elements inconsistent with the verdicts)'))
     for i in cb:
         res.disagreements.append(Failure('correspondence', meta[i], 'model run_suite differs from the real program'))
